@@ -550,6 +550,12 @@ def run(cx, rep):
     rep.rule("C02.14", "schema printing keeps no state on the validator instances: every context is given the definitions its $refs need")
     from rules.c16 import instance_state_rule
     instance_state_rule(mod, mod.classes.get("SchemaPrintingContext"), rep, "C02.14")
+    # ---------------------------------------------------------------- C02.16
+    rep.rule("C02.16", "a local dictionary read by data-derived keys has no prototype")
+    data_keyed_dict_rule(mod, rep, "C02.16")
+    # ---------------------------------------------------------------- C02.15
+    rep.rule("C02.15", "the canonical rendering that decides whether two schemas are equal keeps the order of arrays")
+    canonical_json_rule(mod, rep, "C02.15")
     # ---------------------------------------------------------------- C02.12
     rep.rule("C02.12", "the schema table of a discriminated union narrows each variant to its key")
     disc_schema_table_rule(cx, rep, "C02.12")
@@ -617,3 +623,74 @@ def disc_schema_table_rule(cx, rep, rid):
                    "%s passes a schema table to AnyOfDiscriminatedRuntype whose entries are never narrowed to their key (no Runtype is constructed from the key string): a variant with several discriminator literals is printed under each of them with the same body, `oneOf` then has two matching branches for every value of that variant and the schema rejects what validate() accepts" % f.id,
                    "%s:%s" % (f.file, call["line"]), sample={"fn": f.id, "narrowing_call": (hit or {}).get("callee") or (hit or {}).get("resolved"), "line": (hit or {}).get("line")})
     rep.floor(rid, "constructions of AnyOfDiscriminatedRuntype in the printer", n, 1)
+
+
+
+def canonical_json_rule(mod, rep, rid):
+    """Whether two members of an intersection declare the SAME schema for a shared key is decided by comparing a
+    canonical rendering of the two schemas (object keys sorted).  JSON arrays are ordered: `prefixItems` is positional,
+    so a rendering that also sorts array elements makes `[number, unknown]` and `[unknown, number]` equal, the
+    intersection is merged into one object that keeps only one of the tuples, and the schema accepts documents the
+    validator rejects.  Decided on every self-recursive module function with an `Array.isArray(<parameter>)` branch
+    (a structural renderer): that branch contains no sort / reverse."""
+    n = 0
+    for fname, d in sorted(mod.functions.items()):
+        if d.get("body") is None:
+            continue
+        ps = ts_common.fn_params(d)
+        if not ps or not any(c["type"] == "CallExpression" and any(x["type"] == "Identifier" and x["value"] == fname for x in walk(c)) for c in walk(d)):
+            continue
+        for i in walk(d):
+            if i["type"] not in ("IfStatement", "ConditionalExpression"):
+                continue
+            t = unparen(i["test"])
+            if not (t.get("type") == "CallExpression" and s(t["callee"]) == "Array.isArray" and t["arguments"] and s(t["arguments"][0]["expression"]) == ps[0]):
+                continue
+            n += 1
+            bad = [x for x in walk(i["consequent"]) if x["type"] == "CallExpression" and method_call(x) and method_call(x)[1] in ("sort", "reverse", "toSorted", "toReversed")]
+            rep.ob(rid, "%s/array-branch" % fname, not bad,
+                   "%s reorders the elements of a JSON array (%s) while rendering a value structurally: arrays that differ only in the order of their elements (positional `prefixItems`) compare equal, so schemas that mean different things are treated as the same declaration" % (fname, bad and method_call(bad[0])[1]),
+                   mod.loc(bad[0] if bad else i), sample={"fn": fname, "array_branch_reorders": bool(bad)})
+    rep.floor(rid, "structural renderers with an array branch", n, 1)
+
+
+def data_keyed_dict_rule(mod, rep, rid):
+    """A local dictionary that starts as `{}` and is then READ with a key that comes from data (`d[key]`, `key in d`)
+    answers `constructor`, `toString`, `hasOwnProperty`, `__proto__` from Object.prototype.  In the schema printers the
+    keys are property names of the user's types: `{constructor: string} & {b: number}` found an inherited function
+    under `properties["constructor"]`, took it for a conflicting declaration and fell back to an `allOf` of closed
+    objects, which rejects every value of the type (repaired: the dictionary has no prototype).  Decided for every
+    function of codegen-v2.ts: a local initialised with an empty object literal and read by a computed, non-literal
+    key is not a plain `{}` (`Object.create(null)` / the repo's helper / a Map)."""
+    n = 0
+    fns = [(k, v) for k, v in sorted(mod.functions.items())]
+    for cname, c in sorted(mod.classes.items()):
+        fns += [("%s.%s" % (cname, mn), m["function"]) for mn, m in sorted(c.methods.items())]
+    for fname, fn in fns:
+        if fn.get("body") is None:
+            continue
+        empties = {}
+        for d in walk(fn):
+            if d["type"] == "VariableDeclarator" and d["id"].get("type") == "Identifier" and d.get("init") is not None:
+                i = unparen(d["init"])
+                while i.get("type") in ("TsAsExpression", "TsConstAssertion", "TsTypeAssertion"):
+                    i = unparen(i["expression"])
+                if i.get("type") == "ObjectExpression" and not i.get("properties"):
+                    empties[d["id"]["value"]] = d
+        if not empties:
+            continue
+        assigned_targets = {id(a["left"]) for a in walk(fn) if a["type"] == "AssignmentExpression"}
+        for x in walk(fn):
+            nm, key = None, None
+            if x["type"] == "MemberExpression" and x["property"]["type"] == "Computed" and unparen(x["object"]).get("type") == "Identifier" and id(x) not in assigned_targets:
+                nm, key = unparen(x["object"])["value"], unparen(x["property"]["expression"])
+            elif x["type"] == "BinaryExpression" and x["operator"] == "in" and unparen(x["right"]).get("type") == "Identifier":
+                nm, key = unparen(x["right"])["value"], unparen(x["left"])
+            if nm not in empties or key is None or key.get("type") in ("StringLiteral", "NumericLiteral"):
+                continue
+            n += 1
+            rep.ob(rid, "%s/%s" % (fname, nm), False,
+                   "%s reads the local dictionary `%s` (created as a plain `{}`) with the data-derived key `%s`: for a key such as `constructor` or `toString` the lookup answers with a member of Object.prototype, so a property of that name is treated as already declared / conflicting" % (fname, nm, s(key)[:40]),
+                   mod.loc(x), sample={"fn": fname, "dictionary": nm, "key": s(key)[:40]})
+    rep.ob(rid, "scan", True, sample={"functions_scanned": len(fns), "plain_dictionaries_read_by_data_keys": n})
+    rep.floor(rid, "functions scanned for data-keyed plain dictionaries", len(fns), 100)
